@@ -501,9 +501,23 @@ func (w *world) onLog(e *simapi.LogEntry) {
 				w.S.Violate(sig, fmt.Sprintf("Usage %s reports ready but Widget %q does not carry the in-use marker", e.Key.Name, used))
 			}
 			if by, _, _ := unstructured.NestedString(e.After, "spec", "by", "resourceRef", "name"); by != "" {
-				owned := false
-				for _, o := range (&unstructured.Unstructured{Object: e.After}).GetOwnerReferences() {
-					owned = owned || (o.Kind == "Gadget" && o.Name == by)
+				// owned (by UID: a re-created resource of the same name is a different
+				// object) by the using resource this reconcile itself read; nothing to
+				// judge if it read none
+				var g map[string]any
+				for i := len(w.Store.Log) - 1; i >= 0 && i > len(w.Store.Log)-400; i-- {
+					l := w.Store.Log[i]
+					if l.Read && l.TaskID == e.TaskID && l.Verb == "get" && l.Key.Kind == "Gadget" && l.Key.Name == by && l.Err == nil && l.After != nil {
+						g = l.After
+						break
+					}
+				}
+				owned := g == nil
+				if g != nil {
+					uid := (&unstructured.Unstructured{Object: g}).GetUID()
+					for _, o := range (&unstructured.Unstructured{Object: e.After}).GetOwnerReferences() {
+						owned = owned || o.UID == uid
+					}
 				}
 				if !owned {
 					w.S.Violate("C19/ready-usage-not-owned-by-user", fmt.Sprintf("Usage %s reports ready but is not owned by its using resource %s", e.Key.Name, by))
